@@ -62,6 +62,12 @@ M=[
  ("S7 ToSnake splits with ASCII-only test off by one (r > 'A')", S, [("list := s.splitBy(unicode.IsUpper, false)","list := s.splitBy(func(r rune) bool { return r > 'A' && r <= 'Z' }, false)")]),
  ("S8 IsEmptyOrSpace guard dropped in splitBy + index panic on blank", S, [("func (s String) ToSnake() string {","func (s String) ToSnake() string {\n\tif s.source[len(s.source)-1] == ' ' {\n\t\treturn s.source\n\t}")]),
  ("S9 UnTitle indexing bytes (DESIGN; already the code) -> slice [2:] variant", S, [("return string(unicode.ToLower(r)) + s.source[1:]","return string(unicode.ToLower(r)) + s.source[2:]")]),
+ ("N1 NewConfig strips pasted full-width / no-break spaces before the unset test", C, [("\tif len(format) == 0 {","\tformat = strings.Trim(format, \"\\u3000\\u00a0\")\n\tif len(format) == 0 {")]),
+ ("N1b NewConfig treats a template of Unicode (non-ASCII) white space only as unset", C, [("\tif len(format) == 0 {","\tif len(format) == 0 || (format[0] >= 0x80 && strings.TrimSpace(format) == \"\") {")]),
+ ("N2 validate refuses templates containing white space", C, [("\tif len(strings.TrimSpace(cfg.NamingFormat)) == 0 {","\tif len(strings.TrimSpace(cfg.NamingFormat)) == 0 || strings.ContainsAny(cfg.NamingFormat, \" \\t\\r\\n\") {")]),
+ ("N3 NewConfig treats a template without printable characters as unset", C, [("\tif len(format) == 0 {","\tif strings.IndexFunc(format, func(r rune) bool { return r > ' ' && r != 0x7f && r != 0x200b && r != 0xfeff && r != 0xa0 && r != 0x3000 }) < 0 {")]),
+ ("N4 blank template = seeded/C20/config-blank-template-defaulted", C, "/verif/seeded/C20/config-blank-template-defaulted/patch.diff"),
+ ("S10 ContainsAny looks runes up in a fixed [128]bool table", S, [("\t\tif _, ok := tmp[r]; ok {","\t\tvar ascii [128]bool\n\t\tif _, ok := tmp[r]; ok || ascii[r] {")]),
 ]
 only = sys.argv[1:] 
 out=[]
@@ -80,11 +86,12 @@ for name,f,reps in M:
     if not ok: continue
     open(DST+f,'w').write(src)
     env=dict(os.environ, VERIF_REPO='/tmp/verif-mut-C20', VERIF_TIMEOUT='120', VERIF_SHRINKTIME='5s')
-    r=subprocess.run(['/verif/bin/check','C20'],env=env,capture_output=True,text=True)
+    for d in glob.glob('/verif/.work/C20.p*'): shutil.rmtree(d, ignore_errors=True)
+    r=subprocess.run(['/verif/bin/check','C20','--keep'],env=env,capture_output=True,text=True)
     viol=[l for l in r.stdout.splitlines() if l.startswith('VIOLATION') or l.startswith('  rule=')]
     # cases until first failure, from rapid's log lines
     after={}
-    for lp in glob.glob('/verif/.work/C20/log_*.txt'):
+    for lp in glob.glob('/verif/.work/C20.p*/log_*.txt'):
         txt=open(lp,errors='replace').read()
         for m in re.finditer(r'--- FAIL: TestVerif_C20_(\w+).*?\n(?:.*\n)*?.*?failed after (\d+) tests', txt):
             after[m.group(1)]=int(m.group(2))
@@ -93,3 +100,4 @@ for name,f,reps in M:
     for l in viol: print("   "+l[:260])
     sys.stdout.flush()
 for ff in (F,S,C): shutil.copy(SRC+ff, DST+ff)
+for d in glob.glob('/verif/.work/C20.p*'): shutil.rmtree(d, ignore_errors=True)
